@@ -156,7 +156,8 @@ func genS(prop string) func(r *sim.Rng, tier string) any {
 				st.Arg = fmt.Sprintf("ext-%d", i)
 			case "forward":
 				st.N = int64(pick(r, []int{0, 2, 3, 7, 20, 21, 26, 28, 40, 100, 200, 255}))
-				st.Arg = fmt.Sprintf("%x", r.Bytes(r.Intn(40)))
+				// raw bodies of every size class, including the boundaries of one- and two-byte lengths
+				st.Arg = fmt.Sprintf("gen:%d:%d", pick(r, []int{0, 1, 3, 17, 39, 254, 255, 256, 1023, 4096, 65534, 65535, 65536, r.Intn(40)}), r.Intn(1000000))
 			case "advance":
 				if r.Bool(0.5) && len(p.Certs) > 0 {
 					// jump next to a planned boundary: one second before or after it
